@@ -658,7 +658,7 @@ def run_property(rep, pid):
     ]
     rep.stubs += [
         "hash_sha256: injective on its argument (SHA-256 and hash() assumed collision-free); id() values differ from digests",
-        "strip_punct: identity (names without punctuation)",
+        "strip_punct: identity (names without punctuation; C07 discharges this with the strip_punct lemma: the real function on every string of <= 2/3 characters is the identity on word characters and only ever deletes)",
         "re.match('(?:at )?(\\\\d+)', pin_cite): None for a non-numeric pin cite, else group 1 = the leading number (C07 and C05 discharge this abstraction with the pin-cite lemma: the real _has_invalid_pin_cite on <= 5/6 arbitrary characters)",
     ]
     params = {"L": L, "optional_parties": not quick, "ref_fields": not quick, "history": pid == "C06"}
@@ -752,6 +752,10 @@ def run_property(rep, pid):
         from vf.harness import pinlemma
 
         pinlemma.fold(rep, pid)
+        # ... and behind the "strip_punct is the identity on names without punctuation" stub
+        from vf.harness import punctlemma
+
+        punctlemma.fold(rep, pid)
     regression(rep, pid)
     selftest(rep)
     titles = {"C06": "the mapping's values are disjoint ordered sub-sequences led by a full citation and two full citations share a resource iff they are equal", "C07": "every non-full citation is attached to a resource only when the reference model's set of admissible resources is that singleton, id. only to its predecessor within the page window", "C08": "resolving every prefix gives the restriction of the whole resolution and no citation joins a resource introduced later"}
@@ -774,6 +778,10 @@ def replay_file(path):
         from vf.harness import pinlemma
 
         return pinlemma.replay(r)
+    if r["kind"] == "punct":
+        from vf.harness import punctlemma
+
+        return punctlemma.replay(r)
     if r["kind"] == "model":
         cs = build_concrete(r["witness"])
         bad, groups = concrete_oracle(cs)
